@@ -221,7 +221,8 @@ class MultiTaskBCD(BaseSolver):
             else:
                 if W_init is not None:
                     W = W_init.T.copy()
-                    XW = np.asfortranarray(X @ W)
+                    XW = np.asfortranarray(
+                        X @ W[:n_features] + self.fit_intercept * W[-1])
                     p0 = max(len(np.where(W[:, 0] != 0)[0]), p0)
                 else:
                     W = np.zeros(
